@@ -62,6 +62,7 @@ fn main() {
         "C06" => checks::c06::run(tier),
         "C14" => checks::c14::run(tier),
         "silent-child" => checks::c14::silent_child(),
+        "c14-order-child" => checks::c14::order_child(args.get(2).map(|s| s.as_str()).unwrap_or("")),
         "C14-shim" => checks::c14::shim_child(tier),
         "setup" => checks::c14::setup(),
         "C02" => checks::c02::run(tier),
